@@ -24,7 +24,22 @@ def dump_table(sc):
         m = re.match(r'^GOTO (\d+) ("(?:[^"\\]|\\.)*") (-?\d+)$', line)
         if m:
             goto.setdefault(int(m.group(1)), []).append((m.group(2), int(m.group(3))))
-    return states, action, goto
+    prec = []
+    for line in out.splitlines():
+        m = re.match(r'^PREC (\d+) (\w+)((?: \[[^\]]*\])*)$', line)
+        if m:
+            prec.append((m.group(2), sorted(re.findall(r'\[([^\]]*)\]', m.group(3)))))
+    return states, action, goto, prec
+
+
+# docs/5-definitions.md, "Precedence and Associativity"
+DOC_PRECEDENCES = [
+    ('LEFT', sorted(['rhs = rhs rhs'])),
+    ('LEFT', sorted(['"("', '"["', '"{"', '"{{"', '"IDENT"', '"TOKEN"', '"STRING"'])),
+    ('RIGHT', sorted(['"|"'])),
+    ('NONE', sorted(['"="'])),
+    ('NONE', sorted(['"@left"', '"@right"', '"@none"'])),
+]
 
 
 def gen_ref_tables(sc, states, action, goto):
@@ -81,9 +96,13 @@ def run(tier, rep):
     thorough = tier == 'thorough'
     K = 10 if thorough else 8
     with Scratch() as sc:
-        states, action, goto = dump_table(sc)
+        states, action, goto, prec = dump_table(sc)
+        rep.coverage['precedence_levels_equal_documented'] = prec == DOC_PRECEDENCES
+        if prec != DOC_PRECEDENCES:
+            rep.violation('the precedence levels the table is generated from are not the published list: %r' % (prec,), {'harness': 'precedences', 'got': prec, 'want': DOC_PRECEDENCES})
         reft = gen_ref_tables(sc, states, action, goto)
-        fs = lr.files(sc, extra=[reft], lrK=K)
+        KB = 6 if thorough else 5
+        fs = lr.files(sc, extra=[reft], lrK=K, lrBodyK=KB)
         rep.coverage['table_states'] = len(states)
         rep.coverage['action_entries'] = sum(len(v) for v in action.values())
         rep.coverage['goto_entries'] = sum(len(v) for v in goto.values())
@@ -96,11 +115,14 @@ def run(tier, rep):
         res = run_gosym(lr.cfg(fs, 'harnessLRParse', tier), sc, 'parse', timeout=4 * 3600)
         merge_gosym(rep, res, 'S2 Parser.Parse on every sequence of <= %d tokens over the 22 kinds vs reference parser (acceptance, reduction order, error position)' % K)
         lr.handle(rep, res, fs, sc, 'C04')
+        res = run_gosym(lr.cfg(fs, 'harnessLRBody', tier), sc, 'body', timeout=4 * 3600)
+        merge_gosym(rep, res, 'S2b one rule `grammar IDENT IDENT = <body> ;` with every body of <= %d tokens vs reference parser' % KB)
+        lr.handle(rep, res, fs, sc, 'C04')
         regenerate_check(rep, sc)
         rep.assumptions += [
             'token kinds are the 22 kinds of the token table (the scanner cannot produce others); lexemes/positions are placeholders',
             'reference parser: harness/internal/ebnf/parser/zz_verif_lr.go, written from docs/5-definitions.md (grammar block + precedence list)',
             'S1 trusts lookahead.BuildParsingTable of github.com/moorara/algo as the definition of "the LALR(1) tables of that grammar"',
             'bounds: S2 token sequences of length <= %d; S1 has no bound in its domain; longer sequences rest on S1 + the LALR construction' % K,
-            'auxiliary, not solver-decided: byte comparison of the regenerated parsing_table.go',
+            'auxiliary, not solver-decided: byte comparison of the regenerated parsing_table.go; comparison of the precedence levels (data) with the published list',
         ]
